@@ -17,6 +17,13 @@ CheckRec(e) ==
    /\ (e.status = "ok" =>
          LET L == Laws(LoadState(e.t0), LoadState(e.t1), LoadR(e.r), e.ordered, e.reduce) IN
          /\ \A nm \in LawNames : Say(L[nm], e.id, "C11", nm, why)
+         /\ (e.reduce /\ "full" \in DOMAIN e =>
+               \* (which of several added clones becomes "moved here" - and with it which descendants of an added
+               \* branch are marked at all - depends on set iteration order and may differ between the two calls:
+               \* the comparison is made when the second tree has no clones)
+               LET T1 == LoadState(e.t1) IN
+               Say((Cardinality({T1.did[x] : x \in Reach(T1)}) = Cardinality(Reach(T1)) /\ SiblingUnique(LoadR(e.full)))
+                      => ReduceRestricts(LoadR(e.full), LoadR(e.r)), e.id, "C11", "reduce_is_restriction", why))
          /\ Say(e.inputs_same, e.id, "C11", "inputs_modified", why)
          /\ Say(e.marks_known, e.id, "C11", "unknown_mark_value", why))
 ASSUME \A i \in 1..Len(Recs) : CheckRec(Recs[i])
